@@ -27,4 +27,25 @@ PROPS = {
             "expected values come from protojson (referee), not from larking's parseParam",
         ],
     },
+    "C01": {
+        "pkg": "c01",
+        "stages": [{"run": "^TestProp$", "quick": (1500, 4), "thorough": (25000, 16)}],
+        "technique": "property-based testing (rapid): grammar-generated rule sets x instantiated/near-miss/free paths against an independent reference template matcher",
+        "level_text": "Generated-input search over rule sets and request paths; every dispatch must be explained by a rule of the "
+                      "dispatched method under a reference matcher written from the google.api.http grammar. Exploration only.",
+        "level_note": "Trusts harness/ref (template parser+matcher, deliberately the most permissive reading) and protojson as value referee; "
+                      "paths are handed to the mux already decoded (URL.Path).",
+        "rule": "rapid draws 1-6 single-method services with 1-3 bindings each (templates from the grammar: literals from a small "
+                "overlapping pool, *, ** anywhere, {field}, {field=pattern}, nested and typed fields, :verb; verbs GET..PATCH/custom/*), then "
+                "8-16 requests: instantiations of a template of the set with 0-2 near-miss mutations (slash<->colon, insert/delete/duplicate "
+                "segment, verb suffix edits, trailing slash, altered character, other HTTP verb) or free paths. Oracle per dispatched request: "
+                "some binding owned by the dispatched method carries the verb, reference-matches the path, and its captures converted "
+                "(protojson referee) give exactly the received message. One evaluation = one request. Non-trivial = dispatched, or a "
+                "refused single-mutation near miss; distinct = (request kind, path separator skeleton, template feature set).",
+        "assumptions": [
+            "a request that is not dispatched is never a C01 violation (completeness is C02)",
+            "'**' may match zero or more segments anywhere in a template; ':' is ordinary text except as the final :verb of a template that declares one",
+            "panics while serving are counted but reported by C09, not here",
+        ],
+    },
 }
